@@ -178,6 +178,12 @@ def run(ctx):
     pa = ctx.prove(PROPS, clean=(COQ_FILES if ctx.tier == "thorough" else False))
     ctx.log("proof ok=%s obligations=%d closed=%d" % (pa["ok"], pa["obligations"], pa["print_assumptions_closed"]))
     vlib.proof_coverage(ctx, pa)
+    if ctx.tier == "thorough" and pa["ok"]:
+        chk = ctx.coqchk(["Scalibr.Formats.Props_C03"])
+        ctx.coverage["coqchk"] = chk
+        ctx.log("coqchk rc=%s (%.0fs)" % (chk["rc"], chk["wall_s"]))
+        if chk["rc"] != 0:
+            ctx.violation({"kind": "coqchk-failed", "output": chk["output_tail"]}, nofail=True)
     byte, struct, todo = _levels()
     ctx.coverage["formats"] = {"proved_byte_level": byte, "proved_structure_level": struct, "not_yet": todo,
                                "property_lists": ALL_FORMATS}
